@@ -1278,7 +1278,143 @@ def check_C02(tier, seed):
     return rc
 
 
+
+# ------------------------------------------------------------------------------------------------ C01
+
+NET_NODE = lambda p1, cls=248, so=False, nports=1: {'p1': p1, 'class': cls, 'so': so, 'nports': nports}
+NETS = {
+    # name: (N, Topo, Prio, Class, SlaveOnly, NPorts, world nodes, world topo)
+    'link-12': (2, 'Topo_Link', 'Prio_12', 'Cls_2', 'So_2', 'NP_11', [NET_NODE(100), NET_NODE(200)], [[[1, 1], [2, 1]]]),
+    'link-21': (2, 'Topo_Link', 'Prio_21', 'Cls_2', 'So_2', 'NP_11', [NET_NODE(200), NET_NODE(100)], [[[1, 1], [2, 1]]]),
+    'link-eq': (2, 'Topo_Link', 'Prio_Eq2', 'Cls_2', 'So_2', 'NP_11', [NET_NODE(128), NET_NODE(128)], [[[1, 1], [2, 1]]]),
+    'link-lowclass': (2, 'Topo_Link', 'Prio_12', 'Cls_2low', 'So_2', 'NP_11', [NET_NODE(100), NET_NODE(200, cls=6)], [[[1, 1], [2, 1]]]),
+    # a slave-only node ranks below the master-capable ones (IEEE 1588: clockClass 255); one whose own data set ranks above every announced
+    # master is recommended M2 and stays LISTENING (Figure 31) - a configuration outside the property, see DESIGN.md
+    'link-slaveonly': (2, 'Topo_Link', 'Prio_12', 'Cls_2so', 'So_2b', 'NP_11', [NET_NODE(100), NET_NODE(200, cls=255, so=True)], [[[1, 1], [2, 1]]]),
+    'link-slaveonly-eqprio': (2, 'Topo_Link', 'Prio_Eq2', 'Cls_2so', 'So_2b', 'NP_11', [NET_NODE(128), NET_NODE(128, cls=255, so=True)], [[[1, 1], [2, 1]]]),
+    'parallel': (2, 'Topo_Par', 'Prio_12', 'Cls_2', 'So_2', 'NP_22', [NET_NODE(100, nports=2), NET_NODE(200, nports=2)], [[[1, 1], [2, 1]], [[1, 2], [2, 2]]]),
+    'multi': (2, 'Topo_Multi', 'Prio_12', 'Cls_2', 'So_2', 'NP_21', [NET_NODE(100, nports=2), NET_NODE(200)], [[[1, 1], [1, 2], [2, 1]]]),
+    'chain3': (3, 'Topo_Chain3', 'Prio_321', 'Cls_3', 'So_3', 'NP_121', [NET_NODE(200), NET_NODE(150, nports=2), NET_NODE(100)], [[[1, 1], [2, 1]], [[2, 2], [3, 1]]]),
+    'star3': (3, 'Topo_Star3', 'Prio_213', 'Cls_3', 'So_3', 'NP_211', [NET_NODE(150, nports=2), NET_NODE(100), NET_NODE(200)], [[[1, 1], [2, 1]], [[1, 2], [3, 1]]]),
+    'ring3': (3, 'Topo_Ring3', 'Prio_123', 'Cls_3', 'So_3', 'NP_222', [NET_NODE(100, nports=2), NET_NODE(150, nports=2), NET_NODE(200, nports=2)], [[[1, 1], [2, 1]], [[2, 2], [3, 1]], [[3, 2], [1, 2]]]),
+    'shared3': (3, 'Topo_Shared3', 'Prio_213', 'Cls_3so', 'So_3c', 'NP_111', [NET_NODE(150), NET_NODE(100), NET_NODE(200, cls=255, so=True)], [[[1, 1], [2, 1], [3, 1]]]),
+    'chain4': (4, 'Topo_Chain4', 'Prio_3142', 'Cls_4', 'So_4', 'NP_1221', [NET_NODE(200), NET_NODE(100, nports=2), NET_NODE(250, nports=2), NET_NODE(150)], [[[1, 1], [2, 1]], [[2, 2], [3, 1]], [[3, 2], [4, 1]]]),
+    'ring4': (4, 'Topo_Ring4', 'Prio_1234', 'Cls_4', 'So_4', 'NP_2222', [NET_NODE(100, nports=2), NET_NODE(150, nports=2), NET_NODE(200, nports=2), NET_NODE(250, nports=2)],
+              [[[1, 1], [2, 1]], [[2, 2], [3, 1]], [[3, 2], [4, 1]], [[4, 2], [1, 2]]]),
+}
+
+
+def net_consts(name, K, faults='NoFaults', keep=False, depth=0, T=2):
+    n, topo, prio, cls, so, npp, _, _ = NETS[name]
+    return {'N': n, 'Topo': ('<-', topo), 'Prio': ('<-', prio), 'Class': ('<-', cls), 'SlaveOnly': ('<-', so), 'NPorts': ('<-', npp), 'T': T, 'K': K,
+            'Faults': ('<-', faults), 'KeepHist': keep, 'Depth': depth}
+
+
+def net_world(name, **kw):
+    _, _, _, _, _, _, nodes, topo = NETS[name]
+    d = {'nodes': nodes, 'topo': topo, 'timeout': 2}
+    d.update(kw)
+    return d
+
+
+def check_C01(tier, seed):
+    t0 = time.time()
+    build('dev')
+    v = Verdict('C01')
+    acc = Acc()
+    q = tier == 'quick'
+    KS = 10
+    # (1) exhaustive, complete state graph (no depth bound): two nodes, every ranking variant, with and without one fault
+    plain = [('link-12', 'NoFaults'), ('link-21', 'NoFaults'), ('link-eq', 'NoFaults'), ('link-lowclass', 'NoFaults'), ('link-slaveonly', 'NoFaults'), ('link-slaveonly-eqprio', 'NoFaults')]
+    if not q:
+        plain += [('link-12', 'AllFaults'), ('link-21', 'AllFaults'), ('parallel', 'NoFaults'), ('link-slaveonly', 'AllFaults'), ('link-lowclass', 'AllFaults')]
+    for name, faults in plain:
+        cfg = os.path.join(outdir('cfg'), 'C01-%s-%s.cfg' % (name, faults))
+        write_cfg(cfg, constants=net_consts(name, KS, faults), invariants=['Settle'], properties=['NoFlap'])
+        stats, text = run_tlc('MCNet.tla', cfg, 'C01-%s-%s' % (name, faults), workers=8, timeout=900 if q else 3400)
+        if stats['errors'] and not stats['violated']:
+            raise ToolError('TLC error in C01-%s: %s' % (name, stats['errors'][:2]))
+        acc.add('C01-%s-%s' % (name, faults), stats)
+        acc.suites[-1]['complete_graph'] = stats['queue'] == 0 and not stats['violated']
+        if stats['violated']:
+            stats['text_trace'] = vlib.extract_trace(text)
+            v.add({'kind': 'tlc', 'key': 'tlc:' + ','.join(stats['violated']), 'detail': 'Network.tla (%s, %s): %s violated' % (name, faults, stats['violated']),
+                   'replay': write_tlc_counterexample('C01', 'C01-%s-%s' % (name, faults), stats)})
+    # K is tight: with K - 2 the same model has a counterexample (the bound is found, not assumed)
+    cfg = os.path.join(outdir('cfg'), 'C01-link-12-k8.cfg')
+    write_cfg(cfg, constants=net_consts('link-12', KS - 2), invariants=['Settle'])
+    st8, _ = run_tlc('MCNet.tla', cfg, 'C01-link-12-k8', workers=8, timeout=900)
+    tight = 'Settle' in st8['violated']
+    # two ports of one instance on one segment: the recorded finding (the passive sibling flaps)
+    cfg = os.path.join(outdir('cfg'), 'C01-multi.cfg')
+    write_cfg(cfg, constants=net_consts('multi', KS), invariants=['Settle'], properties=['NoFlap'])
+    # (random simulation: the breadth-first graph of this configuration is large and the flap needs K quiet rounds first)
+    stm, textm = run_tlc('MCNet.tla', cfg, 'C01-multi', workers=4, timeout=900, extra=['-simulate', 'num=%d' % (3000 if q else 30000), '-depth', '300', '-seed', str(seed)])
+    acc.add('C01-multi', stm)
+    if stm['violated']:
+        stm['text_trace'] = vlib.extract_trace(textm)
+        v.add({'kind': 'tlc', 'key': 'tlc:multiport:' + ','.join(stm['violated']), 'detail': 'Network.tla (two ports of one instance on one segment): %s violated' % stm['violated'],
+               'replay': write_tlc_counterexample('C01', 'C01-multi', stm)})
+    else:
+        v.notes.append('C01-multi: the design-level counterexample of the recorded finding was not found')
+    # (2) Binding A: every edge of the two-node link graph, and simulated behaviours of three- and four-node networks, on real instances
+    def replay_net(name, consts, simulate=None):
+        cfgp = os.path.join(outdir('cfg'), name + '.cfg')
+        write_cfg(cfgp, constants=consts, invariants=['Settle'], view='View', constraint='Bound', action_constraint='Emit')
+        wpath = os.path.join(outdir('cfg'), name + '.world.json')
+        json.dump(net_world(name.split('-r-')[1]), open(wpath, 'w'))
+        rd = outdir('replay', name); vlib.clean_dir(rd)
+        extra = ['-simulate', 'num=%d' % simulate[0], '-depth', str(simulate[1]), '-seed', str(seed)] if simulate else []
+        stats, rep = vlib.pipe_tlc('MCNet.tla', cfgp, name, [binpath('netsim'), '--replay', '--cfg', wpath, '--replay-dir', rd], timeout=3400, extra=extra)
+        acc.add(name, stats)
+        acc.edges += rep['edges']; acc.events += rep['events']
+        acc.suites[-1].update({'edges_replayed': rep['edges'], 'api_calls': rep['events'], 'mismatch_by_field': rep['mismatch_by_field']})
+        acc.samples += rep.get('samples', [])[:2]
+        if stats['violated']:
+            stats_t = dict(stats)
+            v.add({'kind': 'tlc', 'key': 'tlc:' + ','.join(stats['violated']), 'detail': '%s: %s violated' % (name, stats['violated']), 'replay': write_tlc_counterexample('C01', name, stats_t)})
+        for item in rep.get('violations', []):
+            v.add({'kind': 'mismatch', 'key': 'C01/replay', 'detail': item['detail'], 'replay': item['replay']})
+    replay_net('C01-r-link-12', net_consts('link-12', KS, keep=True, depth=60 if q else 400))
+    if not q:
+        replay_net('C01-r-link-21', net_consts('link-21', KS, 'AllFaults', keep=True, depth=400))
+        replay_net('C01-r-parallel', net_consts('parallel', KS, keep=True, depth=40))
+    for name in (['chain3', 'shared3'] if q else ['chain3', 'star3', 'ring3', 'shared3', 'chain4', 'ring4']):
+        replay_net('C01-r-' + name, net_consts(name, 40, 'AllFaults', keep=True, depth=700), simulate=(4 if q else 60, 600))
+    # (3) Binding B: free-running simulations of real instances (real timer durations, delays, drift, one fault), validated by TraceNet
+    td = outdir('traces', 'C01'); vlib.clean_dir(td)
+    free = [('chain3', {'kind': 'silence', 'n': 3}), ('ring3', {'kind': 'cut', 'seg': 0}), ('shared3', {'kind': 'quality', 'n': 1}), ('chain4', {'kind': 'silence', 'n': 2}),
+            ('ring4', {'kind': 'quality', 'n': 4}), ('link-lowclass', {'kind': 'silence', 'n': 1}), ('parallel', {'kind': 'cut', 'seg': 1})]
+    runs = 0
+    for i, (name, fault) in enumerate(free if not q else free[:4]):
+        for sd in range(1 if q else 6):
+            w = net_world(name, timeout=3, quiet_rounds=16, fault_at_s=70, fault=fault, max_delay_ms=[1, 50, 400][(i + sd) % 3])
+            wp = os.path.join(td, 'free-%s-%d.json' % (name, sd))
+            json.dump(w, open(wp, 'w'))
+            tr = os.path.join(td, 'free-%s-%d.ndjson' % (name, sd))
+            r = subprocess.run([binpath('netsim'), '--free', '--cfg', wp, '--seed', str(seed * 100 + sd), '--trace', tr, '--horizon', '160'], cwd=ROOT, stdout=subprocess.PIPE, text=True, timeout=600)
+            if r.returncode != 0:
+                raise ToolError('netsim --free failed on %s' % name)
+            ok, msg, stats = validate_trace('TraceNet.tla', tr, 'C01-free-%s-%d' % (name, sd))
+            runs += 1
+            acc.states += stats['distinct']; acc.transitions += stats['generated']
+            if not ok:
+                keep = os.path.join(outdir('replay', 'C01-free'), 'rejected-%s-%d.ndjson' % (name, sd))
+                shutil.copy(tr, keep)
+                v.add({'kind': 'trace', 'key': 'C01/free', 'detail': 'free-running network %s (seed %d): %s' % (name, sd, msg), 'replay': keep})
+    acc.edges += runs
+    acc.suites.append({'suite': 'C01-free', 'driver': 'harness/src/bin/netsim.rs --free', 'runs_validated_by_TraceNet': runs})
+    return finish('C01', tier, seed, 'model_checking', v, acc, t0,
+                  EDGE_RULE + '; here an edge is one scheduling decision of the network model (a master port announces, one Announce is delivered, a node runs BMCA, a receipt timeout '
+                  'fires, a round ends, one fault) executed on N real instances wired in memory - the Announce octets a real port emits are what the real receivers parse',
+                  COMMON_ASSUME + ['an Announce is delivered within the round it was sent in (delay below one announce interval); receipt timeouts fire between T and 2T rounds (T = 2)',
+                                   'two-node networks are explored completely (all rankings incl. clockClass 6 and slave-only, one fault); three- and four-node networks by TLC simulation and '
+                                   'by free-running simulations of the real code validated against TraceNet.tla', 'Sync/Delay traffic is not part of the network model (irrelevant to roles)'],
+                  extra_cov={'K_rounds': KS, 'K_is_tight': tight}, exhaustive=False)
+
+
 CHECKS = {
+    'C01': check_C01,
     'C02': check_C02,
     'C13': check_C13,
     'C19': check_C19,
